@@ -67,7 +67,9 @@ def run_shard(mod_name, shard, workdir, idx, timeout):
         proc = subprocess.Popen(
             cmd,
             cwd=ROOT,
-            env=worker_env(),
+            # (temporary files of the workers, of the library in them and of their child
+            # processes live -- and die -- with this run's scratch directory)
+            env=dict(worker_env(), TMPDIR=workdir),
             stdin=subprocess.DEVNULL,
             stdout=subprocess.PIPE,
             stderr=subprocess.PIPE,
